@@ -2,7 +2,7 @@ pub struct Error;
 
 #[inline(always)]
 fn digit(c: u8) -> Result<u8, Error> {
-    c.is_ascii_digit().then_some(c - b'0').ok_or(Error)
+    c.is_ascii_digit().then(|| c - b'0').ok_or(Error)
 }
 
 #[inline(always)]
